@@ -46,6 +46,8 @@ pub enum ROp {
     Num(u8, bool, bool),
     /// set_timezone
     Tz(String),
+    /// update_currency(name, rate)
+    Rate(String, String),
     /// execute("en", text)
     Eval(String),
 }
@@ -69,7 +71,7 @@ const PURITY_TEXTS: [&str; 14] = [
     "1 usd + 1 km\n# c\n7",
 ];
 
-const SESSION_TEXTS: [&str; 9] = ["", "a = 5", "a", "a = a + 1\na", "b = 7\na + b", "a = 1\nb = 2\na + b", "1 +\na", "a = 2\r\nb = a\r\nb", "b"];
+const SESSION_TEXTS: [&str; 10] = ["", "a = 5", "a", "a = a + 1\na", "b = 7\na + b", "a = 1\nb = 2\na + b", "1 +\na", "a = 2\r\nb = a\r\nb", "b", "a = 1 usd + 1 km\na"];
 
 fn nlines(t: &str) -> usize {
     super::c01::segments(t).len()
@@ -221,6 +223,26 @@ impl Prop for C04 {
                 },
             ));
         }
+        {
+            let dr = tier.pick(3, 5);
+            f.push(Family::new(
+                "rate-reconfiguration",
+                Mode::Full,
+                &format!("every sequence of 1..={} operations on ONE calculator over [update_currency(uah, 40) | (uah, 8) | (try, 2) (uah has no configured rate); evaluate '10 usd to uah' | '80 uah + 1 usd' | '10 usd to try']: every evaluation equals the same text on a fresh calculator that was only given the rates in force (what was evaluated before an update does not matter)", dr),
+                move |ch| {
+                    let ops: Vec<ROp> = vec![ROp::Eval("10 usd to uah".into()), ROp::Eval("80 uah + 1 usd".into()), ROp::Eval("10 usd to try".into()), ROp::Rate("uah".into(), "40".into()), ROp::Rate("uah".into(), "8".into()), ROp::Rate("try".into(), "2".into())];
+                    let n = 1 + ch.choose(dr);
+                    let mut h = Vec::new();
+                    for _ in 0..n {
+                        h.push(ch.pick(&ops).clone());
+                    }
+                    if !h.iter().any(|o| matches!(o, ROp::Eval(_))) {
+                        return None;
+                    }
+                    Some(Case::Reconf(h))
+                },
+            ));
+        }
         f.push(Family::new(
             "session-reconfiguration",
             Mode::Full,
@@ -249,7 +271,7 @@ impl Prop for C04 {
         f.push(Family::new(
             "session-histories",
             Mode::Full,
-            &format!("every sequence of 1..={} operations over [S1/S2: set_text(t); execute_session for 9 texts of 1..3 lines that bind, re-bind and use two names (incl. CRLF, a failing line, an empty text); plain execute(t) for 3 texts; S1/S2: execute_session again without a new text] on one calculator", ds),
+            &format!("every sequence of 1..={} operations over [S1/S2: set_text(t); execute_session for 10 texts of 1..3 lines that bind, re-bind and use two names (incl. CRLF, a line that fails to parse, a re-binding that fails to evaluate, an empty text); plain execute(t) for 3 texts; S1/S2: execute_session again without a new text] on one calculator", ds),
             move |ch| {
                 let alphabet = session_ops();
                 let n = 1 + ch.choose(ds);
@@ -266,10 +288,10 @@ impl Prop for C04 {
     fn bfs_layers(&self, tier: Tier) -> Vec<Bfs<Case>> {
         let ops = session_ops();
         let n = ops.len();
-        let (bound, depth) = tier.pick((6i64, 5usize), (8, 7));
+        let (bound, depth) = tier.pick((6i64, 4usize), (8, 7));
         vec![Bfs::new(
             "reachable-session-states",
-            &format!("explicit-state search over the {} session operations (S1/S2: set_text(t); execute_session for 9 texts, plain execute for 3 texts, S1/S2: execute_session again) on one calculator; a state is the pair of model environments (values of a and b per session), the text each session holds, and the fingerprint of what 'a' and 'b' evaluate to in each session at the end; state constraint: every known value within +-{}; every edge replays the shortest history to its source state on two new sessions, applies the operation and runs the full oracle (model per session, isolation replay, plain evaluations against a fresh calculator); depth bound {}", n, bound, depth),
+            &format!("explicit-state search over the {} session operations (S1/S2: set_text(t); execute_session for 10 texts, plain execute for 3 texts, S1/S2: execute_session again) on one calculator; a state is the pair of model environments (values of a and b per session), the text each session holds, and the fingerprint of what 'a' and 'b' evaluate to in each session at the end; state constraint: every known value within +-{}; every edge replays the shortest history to its source state on two new sessions, applies the operation and runs the full oracle (model per session, isolation replay, plain evaluations against a fresh calculator); depth bound {}", n, bound, depth),
             n,
             depth,
             move |h| Case::SessionsReach(h.iter().map(|i| ops[*i].clone()).collect(), bound),
@@ -523,6 +545,14 @@ fn exec_reconf(ctx: &mut Ctx, ops: &[ROp]) -> Verdict {
                 calc.set_number_configuration(*d, *rm, *rd);
                 model.num = Some((*d, *rm, *rd));
             }
+            ROp::Rate(name, rate) => {
+                if !calc.update_currency(name, rate.parse::<f64>().unwrap()) {
+                    v.violation = Some(format!("step {}: update_currency({:?}) rejected", i, name));
+                    return v;
+                }
+                model.rates.retain(|r| !r.starts_with(&format!("{}=", name)));
+                model.rates.push(format!("{}={}", name, rate));
+            }
             ROp::Tz(z) => {
                 if let Err(e) = calc.set_timezone(z.clone()) {
                     v.violation = Some(format!("step {}: set_timezone({:?}) rejected: {}", i, z, e));
@@ -587,6 +617,9 @@ fn exec_session_reconf(ctx: &mut Ctx, bind: &str, setter: &ROp, doubles: bool) -
         ROp::Num(d, rm, rd) => calc.set_number_configuration(*d, *rm, *rd),
         ROp::Tz(z) => {
             let _ = calc.set_timezone(z.clone());
+        }
+        ROp::Rate(name, rate) => {
+            let _ = calc.update_currency(name, rate.parse::<f64>().unwrap());
         }
         ROp::Eval(_) => {}
     }
